@@ -44,10 +44,9 @@ def cached_sympify(u):
 class UnitRegistry:
     """A registry for unit symbols"""
 
-    _unit_system_id = None
-
     def __init__(self, add_default_symbols=True, lut=None, unit_system=None):
         self._unit_object_cache = {}
+        self._id_memo = {}
         if lut:
             self.lut = lut
         else:
@@ -78,6 +77,21 @@ class UnitRegistry:
             return True
         except UnitParseError:
             return False
+
+    @property
+    def _unit_system_id(self):
+        # The memo lives in a dict so that shallow copies of a registry, which
+        # share its lookup table (and its unit cache), share the memo and its
+        # invalidation too.
+        return self.__dict__.setdefault("_id_memo", {}).get("id")
+
+    @_unit_system_id.setter
+    def _unit_system_id(self, value):
+        memo = self.__dict__.setdefault("_id_memo", {})
+        if value is None:
+            memo.clear()
+        else:
+            memo["id"] = value
 
     @property
     def unit_system_id(self):
